@@ -25,6 +25,19 @@ pub enum Case {
     /// TSRequest-like DER tree to read_ts_server_challenge (entry 1) / read_ts_validate (entry 2)
     Tree { entry: u8, node: Node, long: u8 },
     Tls { base: C17Case, challenge_ts: Option<Vec<u8>>, final_reply: Option<FinalReply> },
+    /// a token sealed by the reference peer (under the keys the gss_unwrapex entry uses), then faulted
+    Sealed { msg_len: u16, fault: Option<FaultKind>, via_ts_validate: bool },
+}
+
+fn sealed_token(msg_len: usize) -> refimpl::rd::Built {
+    let msg = engine::src::expand(msg_len as u32 + 3, msg_len);
+    let tok = refimpl::crypto::SealCtx::new(&[2u8; 16], b"fedcba9876543210").seal(&msg);
+    let mut b = refimpl::rd::Built::new();
+    b.u32le("Version", u32::from_le_bytes([tok[0], tok[1], tok[2], tok[3]]));
+    b.blob("Checksum", &tok[4..12]);
+    b.u32le("SeqNum", u32::from_le_bytes([tok[12], tok[13], tok[14], tok[15]]));
+    b.blob("Payload", &tok[16..]);
+    b
 }
 
 fn guard_entry(out: &mut Outcome, name: &str, n: usize, f: impl FnOnce() -> rdp::model::error::RdpResult<()>) {
@@ -94,6 +107,26 @@ pub fn run(c: &Case) -> Outcome {
             let form = if *long == 0 { LenForm::Minimal } else { LenForm::Long(*long) };
             let bytes = der::encode(node, form);
             entry_call(&mut out, 1 + (*entry % 2), &bytes);
+        }
+        Case::Sealed { msg_len, fault, via_ts_validate } => {
+            out.label("sealed");
+            let b = sealed_token(*msg_len as usize);
+            let bytes = match fault {
+                Some(k) => apply_fault(&b, k).0,
+                None => b.bytes.clone(),
+            };
+            out.nontrivial(bytes != b.bytes);
+            if *via_ts_validate {
+                // the way cssp_connect uses it: TSRequest -> pubKeyAuth -> gss_unwrapex
+                let ts = ntlm::build_ts_request(2, None, None, Some(&bytes), LenForm::Minimal);
+                guard_entry(&mut out, "read_ts_validate+gss_unwrapex", ts.len(), || {
+                    let tok = cssp::read_ts_validate(&ts)?;
+                    let mut si = NTLMv2SecurityInterface::new(Rc4::new(b"0123456789abcdef"), Rc4::new(b"fedcba9876543210"), vec![1; 16], vec![2; 16]);
+                    si.gss_unwrapex(&tok).map(|_| ())
+                });
+            } else {
+                entry_call(&mut out, 3, &bytes);
+            }
         }
         Case::Tls { base, challenge_ts, final_reply } => {
             out.label("tls");
@@ -196,7 +229,8 @@ fn gen_tree(s: &mut Src) -> Node {
 }
 
 pub fn decode(s: &mut Src) -> Case {
-    match s.below(10) {
+    match s.below(11) {
+        10 => Case::Sealed { msg_len: s.small(300) as u16, fault: if s.chance(16) { None } else { Some(gen_fault(s)) }, via_ts_validate: s.bool() },
         0 => {
             let n = s.below(64);
             Case::Raw { entry: s.u8(), data: s.bytes(n) }
@@ -294,6 +328,26 @@ fn sweep(tier: Tier, part: usize, parts: usize) -> impl Iterator<Item = Case> {
                 c2.target_info.push((id, vec![1, 2]));
             }
             v.push(Case::Challenge { challenge: c2, fault: None, fault2: None });
+        }
+    }
+    // sealed tokens: every truncation length, every field value sweep, version prefix with short tails
+    for msg_len in [0usize, 1, 7, 40] {
+        let b = sealed_token(msg_len);
+        for via in [false, true] {
+            for t in 0..=b.bytes.len() {
+                v.push(Case::Sealed { msg_len: msg_len as u16, fault: Some(FaultKind::Truncate(t as u16)), via_ts_validate: via });
+            }
+            for (fi, val) in [(0u16, 0u32), (0, 2), (0, 0x0100_0000), (1, 0), (1, 1), (1, 0xFFFF_FFFF)] {
+                v.push(Case::Sealed { msg_len: msg_len as u16, fault: Some(FaultKind::SetField { field: fi, value: val }), via_ts_validate: via });
+            }
+            v.push(Case::Sealed { msg_len: msg_len as u16, fault: Some(FaultKind::Truncate(0)), via_ts_validate: via });
+        }
+    }
+    for n in 0..24usize {
+        for fill in [0u8, 0xFF] {
+            let mut d = vec![1u8, 0, 0, 0];
+            d.extend(std::iter::repeat(fill).take(n));
+            v.push(Case::Raw { entry: 3, data: d });
         }
     }
     let maxlen = if tier == Tier::Thorough { 3 } else { 2 };
